@@ -619,7 +619,9 @@ func (r Registry[R, T]) LinkMessage(
 		}
 
 		fatalErrLock.L.Lock()
-		fatalErr = err
+		if fatalErr == nil { // Only report the first fatal error, not errors that are a consequence of it
+			fatalErr = err
+		}
 		fatalErrLock.Broadcast()
 		fatalErrLock.L.Unlock()
 	}
